@@ -71,9 +71,9 @@ Resolve(tmpl, u) ==
 \* ---- the documented option table --------------------------------------------
 Opt(o, path, tmpl, cls, str) == [o |-> o, path |-> path, tmpl |-> tmpl, cls |-> cls, str |-> str]
 Options == <<
-   Opt("reactor_type",     <<"reactor", "type">>,                 "none", "str",  "cstr"),
-   Opt("temperature_mode", <<"reactor", "temperature_mode">>,     "none", "str",  "isothermal"),
-   Opt("pressure_mode",    <<"reactor", "pressure_mode">>,        "none", "str",  "isobaric"),
+   Opt("reactor_type",     <<"reactor", "type">>,                 "none", "lab4", "cstr"),
+   Opt("temperature_mode", <<"reactor", "temperature_mode">>,     "none", "lab2", "isothermal"),
+   Opt("pressure_mode",    <<"reactor", "pressure_mode">>,        "none", "lab2", "isobaric"),
    Opt("nodes",            <<"reactor", "nodes">>,                "none", "int",  ""),
    Opt("V",                <<"reactor", "volume">>,               "length3", "dim", "2.5 m3"),
    Opt("T",                <<"reactor", "temperature">>,          "none", "num",  ""),
@@ -86,7 +86,7 @@ Options == <<
    Opt("mass_flow_rate",   <<"inlet_gas", "mass_flow_rate">>,     "mass_per_time", "dim", "3 kg/s"),
    Opt("end_time",         <<"simulation", "end_time">>,          "time", "dim", "50 s"),
    Opt("transient",        <<"simulation", "transient">>,         "none", "bool", ""),
-   Opt("stepping",         <<"simulation", "stepping">>,          "none", "str",  "logarithmic"),
+   Opt("stepping",         <<"simulation", "stepping">>,          "none", "lab2", "logarithmic"),
    Opt("init_step",        <<"simulation", "init_step">>,         "none", "numstr", "1e-6 s"),
    Opt("step_size",        <<"simulation", "step_size">>,         "none", "numstr", "10 s"),
    Opt("atol",             <<"simulation", "solver", "atol">>,    "none", "num",  ""),
@@ -97,22 +97,33 @@ Options == <<
    Opt("multi_T",          <<"simulation", "multi_input", "temperature">>, "none", "numlist", ""),
    Opt("multi_P",          <<"simulation", "multi_input", "pressure">>,  "pressure", "dimlist", "atm"),
    Opt("multi_flow_rate",  <<"simulation", "multi_input", "flow_rate">>, "length3_per_time", "dimlist", "cm3/s"),
-   Opt("output_format",    <<"simulation", "output_format">>,     "none", "str",  "csv"),
+   Opt("output_format",    <<"simulation", "output_format">>,     "none", "lab2", "csv"),
    Opt("phases",           <<"phases">>,                          "none", "phases", "") >>
 NOpt == Len(Options)
 OptIdx == 1..NOpt
 Index(o) == CHOOSE k \in OptIdx : Options[k].o = o
 
+\* documented label tables of the string options (write_yaml docstring): every label is a form
+Labels(o) ==
+   CASE o = "reactor_type" -> <<"pfr", "pfr_0d", "cstr", "batch">>
+     [] o = "temperature_mode" -> <<"Isothermal", "Adiabatic">>
+     [] o = "pressure_mode" -> <<"Isobaric", "Isochoric">>
+     [] o = "stepping" -> <<"logarithmic", "regular">>
+     [] o = "output_format" -> <<"CSV", "DAT">>
+LabIx(form) == IF form = "lab1" THEN 1 ELSE IF form = "lab2" THEN 2 ELSE IF form = "lab3" THEN 3 ELSE 4
+NumForms == {"py_int", "py_float", "np_int", "np_float", "zero", "zero_float", "np_i32", "np_f32"}
 FormsOf(cls) ==
    CASE cls = "str" -> {"str"}
-     [] cls = "int" -> {"py_int", "np_int"}
-     [] cls = "num" -> {"py_int", "py_float", "np_int", "np_float"}
-     [] cls = "dim" -> {"py_int", "py_float", "np_int", "np_float", "str_with_unit"}
-     [] cls = "numstr" -> {"py_int", "py_float", "np_int", "np_float", "str_with_unit"}
-     [] cls = "bool" -> {"true", "false"}
+     [] cls = "lab4" -> {"lab1", "lab2", "lab3", "lab4"}
+     [] cls = "lab2" -> {"lab1", "lab2"}
+     [] cls = "int" -> {"py_int", "np_int", "zero", "np_i32"}
+     [] cls = "num" -> NumForms
+     [] cls = "dim" -> NumForms \cup {"str_with_unit"}
+     [] cls = "numstr" -> NumForms \cup {"str_with_unit"}
+     [] cls = "bool" -> {"true", "false", "np_true"}
      [] cls = "names" -> {"names_str", "names_obj"}
-     [] cls = "numlist" -> {"list_py", "np_array"}
-     [] cls = "dimlist" -> {"list_py", "np_array", "list_str", "list_mixed"}
+     [] cls = "numlist" -> {"list_py", "np_array", "tuple_py", "list_int"}
+     [] cls = "dimlist" -> {"list_py", "np_array", "tuple_py", "list_int", "list_str", "list_mixed"}
      [] cls = "phases" -> {"ph_empty", "ph_gas", "ph_all"}
 
 \* ---- values (distinct per option; integers and dyadic fractions) -------------
@@ -121,7 +132,12 @@ NumOf(k, form) ==
      [] form = "py_float" -> <<(3 + k) * 10 + 5, -1>>
      [] form = "np_int" -> <<40 + k, 0>>
      [] form = "np_float" -> <<(40 + k) * 100 + 25, -2>>
+     [] form = "zero" -> <<0, 0>>                   \* falsy values are values
+     [] form = "zero_float" -> <<0, 0>>
+     [] form = "np_i32" -> <<80 + k, 0>>
+     [] form = "np_f32" -> <<(60 + k) * 10 + 5, -1>>    \* exact in single precision
 ListNums(k) == << <<k * 10 + 5, -1>>, <<(100 + k) * 10 + 5, -1>> >>       \* k.5, (100+k).5
+ListInts(k) == << <<k, 0>>, <<0, 0>> >>
 \* "1 atm", "2 bar" style elements of list_str / list_mixed (TLA+ strings are atomic, so the
 \* two spellings per option are tabulated)
 ListStrs(k) == IF Options[k].o = "multi_P" THEN <<"1 atm", "2 bar">> ELSE <<"1 cm3/s", "2 m3/s">>
@@ -149,11 +165,13 @@ PhaseLeaves(form) ==
 
 LeavesOf(k, form, c) ==
    LET O == Options[k] IN
-   CASE form \in {"py_int", "py_float", "np_int", "np_float"} -> {NumLeaf(O.path, NumOf(k, form), O.tmpl, c)}
+   CASE form \in NumForms -> {NumLeaf(O.path, NumOf(k, form), O.tmpl, c)}
      [] form \in {"str", "str_with_unit"} -> {StrLeaf(O.path, O.str)}
-     [] form \in {"true", "false"} -> {Leaf(O.path, "bool", Zero, <<>>, "", form = "true")}
+     [] form \in {"lab1", "lab2", "lab3", "lab4"} -> {StrLeaf(O.path, Labels(O.o)[LabIx(form)])}
+     [] form \in {"true", "false", "np_true"} -> {Leaf(O.path, "bool", Zero, <<>>, "", form # "false")}
      [] form \in {"names_str", "names_obj"} -> {StrLeaf(O.path \o <<Ix(j)>>, Names(k, form)[j]) : j \in 1..2}
-     [] form \in {"list_py", "np_array"} -> {NumLeaf(O.path \o <<Ix(j)>>, ListNums(k)[j], O.tmpl, c) : j \in 1..2}
+     [] form \in {"list_py", "np_array", "tuple_py"} -> {NumLeaf(O.path \o <<Ix(j)>>, ListNums(k)[j], O.tmpl, c) : j \in 1..2}
+     [] form = "list_int" -> {NumLeaf(O.path \o <<Ix(j)>>, ListInts(k)[j], O.tmpl, c) : j \in 1..2}
      [] form = "list_str" -> {StrLeaf(O.path \o <<Ix(j)>>, ListStrs(k)[j]) : j \in 1..2}
      [] form = "list_mixed" -> {NumLeaf(O.path \o <<"#1">>, ListNums(k)[1], O.tmpl, c),
                                 StrLeaf(O.path \o <<"#2">>, ListStrs(k)[2])}
@@ -166,12 +184,16 @@ GenLeaves(gen) ==
      [] gen = "misc_foo" -> {Leaf(<<"foo">>, "num", <<1, 0>>, <<>>, "", FALSE)}
      [] gen = "solver_atol" -> {Leaf(<<"simulation", "solver", "atol">>, "num", <<1, -9>>, <<>>, "", FALSE)}
      [] gen = "inlet_flow" -> {StrLeaf(<<"inlet_gas", "flow_rate">>, "9 cm3/s")}
+     [] gen = "simulation_end" -> {StrLeaf(<<"simulation", "end_time">>, "5 s")}
+     [] gen = "multi_input_T" -> {Leaf(<<"simulation", "multi_input", "temperature", "#1">>, "num", <<650, 0>>, <<>>, "", FALSE)}
 Paths(S) == {x.path : x \in S}
 Supplied(c) == {k \in OptIdx : c.assign[k] # "omitted"}
 Expected(c) ==
    LET g == GenLeaves(c.gen)
        a == UNION {LeavesOf(k, c.assign[k], c) : k \in Supplied(c)}
-   IN g \cup {x \in a : x.path \notin Paths(g)}
+       \* an entry of a generic dictionary replaces the whole option, list elements included
+       roots == Paths(g) \cup {SubSeq(q, 1, Len(q) - 1) : q \in {r \in Paths(g) : r[Len(r)] = "#1"}}
+   IN g \cup {x \in a : x.path \notin roots /\ SubSeq(x.path, 1, Len(x.path) - 1) \notin roots}
 \* first-of-multi entries the writer may add
 FirstOf(c, multi, scalar) ==
    LET km == Index(multi)  ks == Index(scalar) IN
@@ -242,16 +264,16 @@ Verdict(c, obs) ==
 
 \* ---- the implementation-shaped algorithm (_assign_yaml_val + its callers) -------
 \* what happens to ONE supplied option: "ok" | "dropped" | "unloadable" | "raises" | "wrongunit"
-IsNpScalar(form) == form \in {"np_int", "np_float"}
+IsNpScalar(form) == form \in {"np_int", "np_float", "np_i32", "np_f32", "np_true"}
 Outcome(variant, k, form, units) ==
    LET O == Options[k]  templ == O.tmpl # "none" IN
    IF variant = "repaired" THEN "ok"
    ELSE \* "pinned"
    IF O.cls = "phases" THEN "ok"
    ELSE IF ~templ THEN (IF IsNpScalar(form) \/ (form = "np_array") THEN "unloadable" ELSE "ok")
-   ELSE IF form \in {"py_int", "py_float", "np_float"}          \* isinstance(val, (int, float))
+   ELSE IF form \in {"py_int", "py_float", "np_float", "zero", "zero_float"}   \* isinstance(val, (int, float))
         THEN (IF units = "absent" THEN "raises" ELSE "ok")
-   ELSE IF form \in {"list_py", "np_array", "list_str", "list_mixed"}
+   ELSE IF form \in {"list_py", "np_array", "list_int", "list_str", "list_mixed"}
         THEN (IF units = "absent" THEN "raises"
               ELSE IF form \in {"list_str", "list_mixed"} THEN "wrongunit" ELSE "ok")
    ELSE "dropped"                                                 \* str_with_unit, np_int
@@ -260,14 +282,16 @@ Outcome(variant, k, form, units) ==
 Case(assign, units, usys, gen) == [assign |-> assign, units |-> units, usys |-> usys, gen |-> gen]
 Nothing == [k \in OptIdx |-> "omitted"]
 UnitChoices == {<<"absent", "si">>, <<"obj", "cgs">>, <<"dict", "mix">>, <<"dict", "si">>}
-OF == {<<k, f>> : k \in OptIdx, f \in {"str", "py_int", "py_float", "np_int", "np_float", "str_with_unit",
-                                         "true", "false", "names_str", "names_obj", "list_py", "np_array",
-                                         "list_str", "list_mixed", "ph_empty", "ph_gas", "ph_all"}}
+AllForms == {"str", "lab1", "lab2", "lab3", "lab4", "str_with_unit", "true", "false", "np_true", "names_str",
+             "names_obj", "list_py", "np_array", "tuple_py", "list_int", "list_str", "list_mixed", "ph_empty",
+             "ph_gas", "ph_all"} \cup NumForms
+OF == {<<k, f>> : k \in OptIdx, f \in AllForms}
 OFok == {kf \in OF : kf[2] \in FormsOf(Options[kf[1]].cls)}          \* (option, form) pairs that exist
 SinglesOK == {Case([Nothing EXCEPT ![kf[1]] = kf[2]], uc[1], uc[2], "none") : kf \in OFok, uc \in UnitChoices}
 PairUnitChoices == {<<"obj", "cgs">>, <<"absent", "si">>}
 PairsOK == {Case([[Nothing EXCEPT ![x[1][1]] = x[1][2]] EXCEPT ![x[2][1]] = x[2][2]], uc[1], uc[2], "none") :
                x \in {y \in OFok \X OFok : y[1][1] < y[2][1]}, uc \in PairUnitChoices}
+\* (the driver samples the pairs by seed in the quick tier and runs all of them in the thorough tier)
 \* every option supplied, one "uniform" flavour per case
 Uniform(flavour) ==
    [k \in OptIdx |->
@@ -275,6 +299,10 @@ Uniform(flavour) ==
       IF flavour \in F THEN flavour
       ELSE IF flavour = "np_float" /\ "np_int" \in F THEN "np_int"
       ELSE IF flavour \in {"np_float", "np_int"} /\ "np_array" \in F THEN "np_array"
+      ELSE IF flavour \in {"zero", "np_f32"} /\ "tuple_py" \in F THEN "tuple_py"
+      ELSE IF "lab1" \in F THEN (IF flavour \in {"py_float", "zero"} THEN "lab1" ELSE "lab2")
+      ELSE IF flavour = "np_f32" /\ "np_i32" \in F THEN "np_i32"
+      ELSE IF flavour \in {"np_f32", "np_float"} /\ "np_true" \in F THEN "np_true"
       ELSE IF flavour = "str_with_unit" /\ "list_str" \in F THEN "list_str"
       ELSE IF "py_float" \in F THEN "py_float"
       ELSE IF "py_int" \in F THEN "py_int"
@@ -284,22 +312,26 @@ Uniform(flavour) ==
       ELSE IF "ph_all" \in F THEN "ph_all"
       ELSE "str"]
 AllSupplied == {Case(Uniform(fl), uc[1], uc[2], "none") :
-                  fl \in {"py_float", "py_int", "np_float", "np_int", "str_with_unit"}, uc \in UnitChoices}
+                  fl \in {"py_float", "py_int", "np_float", "np_int", "str_with_unit", "zero", "np_f32"},
+                  uc \in UnitChoices}
 Generic == {Case([Nothing EXCEPT ![Index("T")] = "py_float"], "obj", "cgs", "reactor_temperature"),
             Case([Nothing EXCEPT ![Index("T")] = "py_float"], "obj", "cgs", "misc_foo"),
             Case([Nothing EXCEPT ![Index("atol")] = "py_float"], "absent", "si", "solver_atol"),
             Case([Nothing EXCEPT ![Index("flow_rate")] = "py_float"], "obj", "cgs", "inlet_flow"),
-            Case(Nothing, "obj", "cgs", "misc_foo")}
+            Case(Nothing, "obj", "cgs", "misc_foo"),
+            Case([Nothing EXCEPT ![Index("end_time")] = "py_float"], "obj", "cgs", "simulation_end"),
+            Case([Nothing EXCEPT ![Index("multi_T")] = "list_py"], "obj", "cgs", "multi_input_T")}
 Empty == {Case(Nothing, uc[1], uc[2], "none") : uc \in UnitChoices}
 
 \* what the driver needs to build the call: the value of every supplied option
 ArgOf(k, form, c) ==
    [o |-> Options[k].o, form |-> form,
-    num |-> IF form \in {"py_int", "py_float", "np_int", "np_float"} THEN NumOf(k, form) ELSE Zero,
-    nums |-> IF form \in {"list_py", "np_array", "list_mixed"} THEN ListNums(k) ELSE <<>>,
+    num |-> IF form \in NumForms THEN NumOf(k, form) ELSE Zero,
+    nums |-> IF form \in {"list_py", "np_array", "tuple_py", "list_mixed"} THEN ListNums(k)
+             ELSE IF form = "list_int" THEN ListInts(k) ELSE <<>>,
     strs |-> IF form \in {"list_str", "list_mixed"} THEN ListStrs(k)
              ELSE IF form \in {"names_str", "names_obj"} THEN Names(k, form) ELSE <<>>,
-    str |-> Options[k].str]
+    str |-> IF form \in {"lab1", "lab2", "lab3", "lab4"} THEN Labels(Options[k].o)[LabIx(form)] ELSE Options[k].str]
 Emit(c) == [units |-> c.units, usys |-> c.usys, gen |-> c.gen,
             unit_texts |-> UnitSystems[c.usys],
             assign |-> c.assign,
